@@ -304,8 +304,9 @@ def r4_rejoin_or_defunct(ctx, f, rep):
         if h is None or not any(e['res'] == 'Foca::apply_update' for e in p.calls()):
             continue
         ks = c12.message_kinds(f, p, len(p.events), lambda v: v == msg)
-        if ks != {'TurnUndead'}:
+        if 'TurnUndead' not in ks:
             continue
+        # (a path on which the kind is still undecided when it returns is a path a TurnUndead takes too)
         active = None
         for c in p.conds():
             if c.get('dty') == 'bool' and q.ok_payload_of(p, c['expr']) is not None and active is None:
@@ -321,6 +322,33 @@ def r4_rejoin_or_defunct(ctx, f, rep):
             rep.check(len(hs) == 1, 'C10-R4', hd.nname, 'a TurnUndead addressed to us (from an active sender while connected, or '
                       'from a sender we hold as Down) is handled by handle_self_update(_, Down)', construct='turnundead-handled:%s' % active)
     rep.floor('C10-R4', n_tu, 2, 'TurnUndead handling paths')
+    # ... and an update about the own identity is never skipped: in apply_many, once `update.id == self.identity` holds
+    # for an item, handle_self_update is called for it whatever the other arguments (do_broadcast, ...) say
+    am = f.fn('Foca::apply_many')
+    ident = q.self_field('identity')
+    n_self = 0
+    for p in ctx.paths(f, am, 'small'):
+        if p.end not in ('return', 'cut'):
+            continue
+        evs = p.events
+        for i, c in enumerate(evs):
+            if c['kind'] != 'cond':
+                continue
+            e, t = q.norm_bool(c)
+            es = q.eq_sides(e)
+            if not es or t is None or not (q.is_load_of(es[1], ident) or q.is_load_of(es[2], ident)) or (t != es[0]):
+                continue
+            # the rest of this iteration: up to the next item or the end of the path
+            nxt = [k for k in range(i + 1, len(evs)) if evs[k]['kind'] == 'call' and evs[k]['res'].endswith('Iterator>::next')
+                   or (evs[k]['kind'] == 'call' and evs[k]['decl'] == 'core::iter::Iterator::next')]
+            seg = evs[i + 1:(nxt[0] if nxt else len(evs))]
+            if not nxt and p.end == 'cut':
+                continue
+            n_self += 1
+            rep.check(any(x['kind'] == 'call' and x['res'] == 'Foca::handle_self_update' for x in seg), 'C10-R4', am.nname,
+                      'an update about the own identity always reaches handle_self_update', site=c['span'],
+                      construct='self-update-never-skipped')
+    rep.floor('C10-R4', n_self, 1, 'own-identity branches of apply_many')
     ab = f.fn('Foca::attempt_rejoin')
     n = 0
     for p in ctx.paths(f, ab, 'none'):
